@@ -451,10 +451,22 @@ func (x *runner) check(doc []byte, hexDoc, planName string, o runObs, ref *runOb
 	}
 	// chunk independence
 	if ref != nil {
-		if i, ok := sameToks(ref.Toks, o.Toks); !ok {
+		i, ok := sameToks(ref.Toks, o.Toks)
+		n := len(ref.Toks)
+		if len(o.Toks) < n {
+			n = len(o.Toks)
+		}
+		tooLong := (ref.End == "ETooLong") != (o.End == "ETooLong")
+		switch {
+		case tooLong && (ok || i == n):
+			// same tokens as far as both runs go, but only one of them hit the 64 KiB limit
+			x.res.Fail("C17/decoder/chunk/too-long-boundary",
+				fmt.Sprintf("end state %s (%d tokens) in one piece, %s (%d tokens) with plan %s (reads %v, EOF with data %v): whether an undecided token of exactly 65536 bytes is ErrTooLong depends on when the scanner sees EOF",
+					ref.End, len(ref.Toks), o.End, len(o.Toks), planName, head(o.Reads, 12), o.DEOF), c)
+		case !ok:
 			x.res.Fail("C17/decoder/chunk/"+chunkKey(ref.Toks, o.Toks, i),
 				fmt.Sprintf("token %d differs between reading in one piece and plan %s (reads %v, EOF with data %v)", i, planName, head(o.Reads, 12), o.DEOF), c)
-		} else if ref.End != o.End {
+		case ref.End != o.End:
 			x.res.Fail("C17/decoder/chunk/end-state", fmt.Sprintf("end state %s in one piece, %s with plan %s", ref.End, o.End, planName), c)
 		}
 	}
@@ -961,6 +973,14 @@ func main() {
 				}
 				x.document(r, longDoc(k, n), false, emit, note)
 			}
+		}
+		// the boundary of the limit: an unterminated line of exactly 65536 bytes
+		{
+			emit := 1
+			if o.Search {
+				emit = 0
+			}
+			x.document(r, longDoc("plain-eof", 65536), false, emit, "long:plain-eof 65536")
 		}
 		if !o.Search {
 			x.utfCases(r, nUtf)
